@@ -224,7 +224,7 @@ def run(ctx):
     ctx.cov['rule'] = ('random square CSR systems n=1..8 (thorough: ..12): empty rows, explicit zeros, unsorted columns, '
                        'unsymmetric patterns; duplicate-free splits in random order given as I or D, as int32/int64 arrays, '
                        'DofsView or dict of views of a real basis; vector / matrix / absent right-hand sides; overwrite on/off; CSR storage with '
-                       'duplicate entries (oracle only); mpc with all defaults; default and given epsilon, zero constrained diagonal. '
+                       'duplicate entries (oracle only); complex-valued systems with x omitted / given (oracle only); mpc with all defaults; default and given epsilon, zero constrained diagonal. '
                        'non-trivial = n>=2, 0<|D|<n and at least one stored off-diagonal entry; distinct by content')
     ctx.ensure_static()
     # 1. regenerate
@@ -255,7 +255,8 @@ def run(ctx):
                                           'penalize_vs_condense(rel)': state['pen_maxdisc'], 'penalize_tolerance': 1e-6,
                                           'penalize_zero_diagonal_vs_condense(rel)': state.get('pen0_maxdisc', 0.0),
                                           'eigen_residual(rel)': state['eig_maxdisc'], 'eigen_tolerance': 1e-8,
-                                          'mpc_solve_vs_exact(rel)': state.get('mpc_maxdisc', 0.0)}
+                                          'mpc_solve_vs_exact(rel)': state.get('mpc_maxdisc', 0.0),
+                                          'complex_solve(rel)': state.get('complex_maxdisc', 0.0)}
     if gen_ok:
         nt = lambda r: r.get('nontrivial', False)  # noqa: E731
         spec = [('enforce', 'run_enforce', '(option_eqb eq_mo)'),
@@ -635,6 +636,68 @@ def check_noncanonical(ctx, n, rng):
         ctx.fail('no_mutation:noncanonical', 'an argument was modified (CSR with duplicate entries)', rep)
 
 
+def check_complex_case(ctx, state, n, rng):
+    """complex-valued systems (Helmholtz-like), prescribed values omitted (default zeros) or given: condense + solve
+    expansion, enforce, penalize.  Exact part: the expansion y = x.copy(); y[I] = z of a complex z through the (x, I)
+    that condense returns keeps z bit for bit; float part: y = x on D and the residual on the kept rows."""
+    from skfem.utils import condense, enforce, penalize, solve, solve_linear
+    ip, ix, d = rand_csr(rng, n, dominant=True, empty_p=0.0, zero_p=0.05)
+    im = [rng.randint(-3, 3) for _ in d]
+    # keep the kept block diagonally dominant: imaginary parts only off the diagonal and small
+    data = np.array([complex(d[k], (0 if ix[k] == i else 0.25 * im[k])) for i in range(n) for k in range(ip[i], ip[i + 1])]) \
+        if ip[-1] else np.zeros(0, dtype=complex)
+    A = sp.csr_matrix((data.astype(np.complex128), np.array(ix, dtype=np.int32), np.array(ip, dtype=np.int32)), shape=(n, n))
+    b = np.array([complex(rng.randint(-9, 9), rng.randint(-9, 9)) for _ in range(n)])
+    k = rng.randint(1, n - 1)
+    D = rng.sample(range(n), k)
+    I = [i for i in range(n) if i not in D]
+    given = rng.random() < 0.4
+    x = np.array([complex(rng.randint(-5, 5), rng.randint(-5, 5)) for _ in range(n)]) if given else None
+    xref = x if given else np.zeros(n, dtype=complex)
+    rep = {'fn': 'complex system', 'n': n, 'indptr': ip, 'indices': ix, 'data': [[float(v.real), float(v.imag)] for v in data],
+           'b': [[float(v.real), float(v.imag)] for v in b], 'x': None if x is None else [[float(v.real), float(v.imag)] for v in x],
+           'D': D}
+    ctx.count(('complex', n, ip, ix, rep['data'], rep['b'], rep['x'], D), nontrivial=True)
+    ctx.hist('complex_x', 'given' if given else 'omitted')
+    Darr, Iarr = idx_array(rng, D), idx_array(rng, I)
+    key = 'condense:complex:x-' + ('given' if given else 'omitted')
+    kw = {} if x is None else {'x': x}
+    before = checksum(A, b, x, Darr)
+    scale = max(1.0, float(np.max(np.abs(b))))
+    worst = 0.0
+    with warnings.catch_warnings():
+        warnings.simplefilter('ignore')
+        for label, call in (('condense(D=)', lambda: solve(*condense(A, b, D=Darr, **kw))),
+                            ('condense(I=)', lambda: solve(*condense(A, b, I=Iarr, **kw))),
+                            ('enforce', lambda: solve(*enforce(A, b, D=Darr, **kw))),
+                            ('penalize', lambda: solve(*penalize(A, b, D=Darr, **kw)))):
+            try:
+                y = np.asarray(call())
+            except Exception as e:  # noqa: BLE001
+                ctx.fail(key + ':' + label + ':raises', f'{label} on a complex system raises {e!r}', rep)
+                continue
+            tol = 1e-6 if label == 'penalize' else 1e-9
+            e_bc = float(np.max(np.abs(y[D] - xref[D]))) / max(1.0, float(np.max(np.abs(xref))))
+            res = float(np.max(np.abs((A @ y - b)[I]))) / scale
+            if label != 'penalize':
+                worst = max(worst, e_bc, res)
+            if not (e_bc <= tol and res <= tol):
+                ctx.fail(key + ':' + label.split('(')[0], f'{label} on a complex system: solution violates the property (|y-x| on D {e_bc:.1e}, '
+                         f'residual on the kept rows {res:.1e}); real part only = {bool(np.all(np.asarray(y).imag == 0))}',
+                         dict(rep, call=label, solution=[[float(v.real), float(v.imag)] for v in y]))
+        # exact: expansion of a complex z through what condense returned
+        AII, bI, xr, Ir = condense(A, b, D=Darr, **kw)
+        z = np.array([complex(rng.randint(-9, 9), rng.randint(-9, 9)) for _ in Ir])
+        y = solve_linear(AII, bI, xr, Ir, solver=lambda A_, b_, **kw_: z)
+        if not (np.array_equal(np.asarray(y)[np.asarray(Ir)], z) and np.array_equal(np.asarray(y)[D], xref[D])):
+            ctx.fail(key + ':expansion', 'solve_linear expansion with the (x, I) returned by condense does not keep a complex solution '
+                     f'(x dtype {np.asarray(xr).dtype}, result dtype {np.asarray(y).dtype})',
+                     dict(rep, z=[[float(v.real), float(v.imag)] for v in z], got=[[float(v.real), float(v.imag)] for v in np.asarray(y, dtype=complex)]))
+    if checksum(A, b, x, Darr) != before:
+        ctx.fail('no_mutation:complex', 'an argument of condense/enforce/penalize was modified (complex system)', rep)
+    state['complex_maxdisc'] = max(state.get('complex_maxdisc', 0.0), worst)
+
+
 def check_expand(ctx, cases, n, x, I, z, X):
     from skfem.utils import solve_linear, solve_eigen
     xx = np.array(x, dtype=float)
@@ -755,6 +818,8 @@ def _gen_random(ctx, cases, state):
                 check_penalize_limit(ctx, state, n, csr, b, x, D, rng, zero_diag=True)
     for it in range(ctx.n(60, 400)):
         check_noncanonical(ctx, rng.randint(1, nmax), rng)
+    for it in range(ctx.n(40, 250)):
+        check_complex_case(ctx, state, rng.randint(2, nmax), rng)
     for it in range(ctx.n(15, 80)):
         check_eigen_pipeline(ctx, state, rng.randint(3, nmax) if it % 3 else rng.randint(10, 14), rng)
     # positions: the generated arithmetic vs the implementation's lines executed verbatim is not observable directly;
